@@ -194,6 +194,10 @@ F("make_break", "ipr::Break", "Break", "", "lx.make_break()", "from=@stmt", "F 1
 F("make_continue", "ipr::Continue", "Continue", "", "lx.make_continue()", "iteration=@stmt", "F 1", "stmt:ST:set:$n->stmt = &$v")
 F("make_block", "ipr::Block", "Block", "R OT", "lx.make_block($1, $2)", "handlers=[] body=*stmts", "G? 2",
   "stmts:E:push:$n->add_stmt($v)")
+F("new_handler", "ipr::Handler", "Handler", "BLK N T",
+  "const_cast<impl::Block&>(dynamic_cast<const impl::Block&>($1)).new_handler($2, $3)",
+  "exception.name=2 exception.type=3 exception.initializer=0 body.handlers=[] body.body=*stmts", "@btype",
+  "btype:T:set:$n->body().typing = &$v|stmts:E:push:$n->body().add_stmt($v)")
 F("make_ctor_body", "ipr::Ctor_body", "Ctor_body", "EL BLK", "lx.make_ctor_body($1, $2)", "first=1 second=2 inits=1 block=2", "N")
 F("make_expr_stmt", "ipr::Expr_stmt", "Expr_stmt", "E", "lx.make_expr_stmt($1)", "operand=1 expr=1", "B 1")
 F("make_goto", "ipr::Goto", "Goto", "E", "lx.make_goto($1)", "operand=1 target=1", "B 1")
